@@ -178,11 +178,14 @@ impl Compression {
 }
 
 /// The compression codec used to compress blocks.
-#[derive(Clone, Copy, Debug, Eq, PartialEq, serde_derive::Deserialize, serde_derive::Serialize)]
+#[derive(
+	Clone, Copy, Debug, Default, Eq, PartialEq, serde_derive::Deserialize, serde_derive::Serialize,
+)]
 #[serde(rename_all = "kebab-case")]
 #[non_exhaustive]
 enum CompressionCodec {
 	/// The `Null` codec simply passes through data uncompressed.
+	#[default]
 	Null,
 	#[cfg(feature = "deflate")]
 	/// The `Deflate` codec writes the data block using the deflate algorithm
@@ -214,7 +217,8 @@ const HEADER_CONST: [u8; 4] = [b'O', b'b', b'j', 1u8];
 struct Metadata<S, M> {
 	#[serde(rename = "avro.schema")]
 	schema: S,
-	#[serde(rename = "avro.codec")]
+	/// "If codec is absent, it is assumed to be "null"."
+	#[serde(rename = "avro.codec", default)]
 	codec: CompressionCodec,
 	#[serde(flatten)]
 	user_metadata: M,
